@@ -188,6 +188,7 @@ func TestVerifC18HTTPHeader(t *testing.T) {
 // ---- strict codecs ----
 
 type vfC18CodecCase struct {
+	Prev []byte `json:"prev,omitempty"` // a message of the same type that the decode target holds beforehand
 	Type string `json:"type"`
 	Msg  []byte `json:"msg"` // binary encoding of the message
 }
@@ -228,7 +229,12 @@ func TestVerifC18Codec(t *testing.T) {
 			if err != nil {
 				panic(err)
 			}
-			return vfC18CodecCase{Type: string(typ.ProtoReflect().Descriptor().FullName()), Msg: data}
+			// what the decode target holds beforehand (a message object that is used again)
+			prev, err := proto.Marshal(verifkit.GenMessage(t, typ.ProtoReflect().Descriptor(), verifkit.MsgGenOptions{MaxDepth: 2, AnyTypes: vfAnyTypes}))
+			if err != nil {
+				panic(err)
+			}
+			return vfC18CodecCase{Type: string(typ.ProtoReflect().Descriptor().FullName()), Msg: data, Prev: prev}
 		},
 		Check: func(c vfC18CodecCase) error {
 			orig := vfNewOfType(c.Type)
@@ -268,6 +274,31 @@ func TestVerifC18Codec(t *testing.T) {
 					}
 					if !proto.Equal(orig, back) {
 						return verifkit.Violf("codec-roundtrip:"+cd.Name(), "%s codec: Unmarshal(%s(m)) differs from m", cd.Name(), name)
+					}
+				}
+			}
+			// decoding gives the encoded message whatever the target held before: a target used for an earlier message, the
+			// message itself (repeated fields must not double), and - for the empty message, whose binary encoding has
+			// no bytes at all - a target that is not empty
+			for _, cd := range []codec{StrictProtoCodec{}, StrictJSONCodec{}} {
+				empty := orig.ProtoReflect().New().Interface()
+				for _, m := range []proto.Message{orig, empty} {
+					data, err := cd.Marshal(m)
+					if err != nil {
+						continue
+					}
+					prevs := []proto.Message{proto.Clone(orig)}
+					if p := vfNewOfType(c.Type); p != nil && len(c.Prev) > 0 && proto.Unmarshal(c.Prev, p) == nil {
+						prevs = append(prevs, p)
+					}
+					for _, target := range prevs {
+						if err := cd.Unmarshal(data, target); err != nil {
+							return verifkit.Violf("codec-reused-target:"+cd.Name(), "%s codec cannot decode its own output into a used message: %v", cd.Name(), err)
+						}
+						if !proto.Equal(m, target) {
+							return verifkit.Violf("codec-reused-target:"+cd.Name(), "%s codec: decoding %d bytes into a message that held something before does not give the encoded message (%d bytes when re-encoded canonically, want %d)",
+								cd.Name(), len(data), proto.Size(target), proto.Size(m))
+						}
 					}
 				}
 			}
